@@ -34,6 +34,13 @@ CLAIMED = {
                      "(FIFO, at most once, nothing lost), one task at a time, a sleeping worker implies empty queue and no abort (no lost wake-up), nothing starts after abort and the worker exits within "
                      "one task return and one check. Tie: histories of the real scheduler under thousands of controlled schedules (random, PCT, DFS, spurious wake-ups) must be linearisations accepted "
                      "by the extracted transition system; thread affinity and worker liveness at quiescence are read off the runtime."),
+    "C13": dict(engine="coq-seq", design="DESIGN.md 6 C13",
+                technique="machine-checked proof in Coq (invariants of the connectable automaton over all call histories) + three-way correspondence impl = Seq = ConnK and a reference-machine oracle on every implementation observation",
+                text="Theorems C13_ref_count_one_source / C13_replay_one_source / C13_publish_sources_are_connections / C13_publish_nothing_before_connect: for every call history "
+                     "(unbounded subscribers and calls) the automaton of publish / ref_count / replay over a hot source holds at most one source subscription (ref_count: exactly one while it has "
+                     "subscribers; publish: one per live connection, none before connect). Partial: equality of what subscribers see and replay's completeness are decided by the reference-machine oracle "
+                     "on the implementation (all histories up to length 5-6 exhaustively plus random ones, hot and synchronous cold sources), not by a theorem. Tie: the implementation's source-observer count "
+                     "after every action and every subscriber log must equal the automaton's."),
     "C18": dict(engine="coq-conc", design="DESIGN.md 6 C18",
                 technique="machine-checked proof in Coq (invariant + bounded-progress lemma of a poller/source transition system over all interleavings) + correspondence under a deterministic scheduling runtime (result and poll count within the model's exhaustively explored outcome set)",
                 text="Theorems C18_result / C18_no_lost_wakeup / C18_eventually_ready: in the to_vec model (waker lock held across the done test and the store; done set before the waker is read) every interleaving, "
